@@ -51,6 +51,18 @@ def run_job(job, w):
             w.records.append(rec)
             continue
         viol, cnt = oracles.c02_judge(nodes, script, r, wf["stages"])
+        if viol:
+            # known mechanism (see known_findings): observers that were already running when their same-stage
+            # subject shut down end FINISHED.  Decide it structurally on the history, report it under its key and
+            # re-judge the run with those observers' states taken as given, so that anything else still fails.
+            ov = oracles.c02_running_observers_of_shutdown_subjects(nodes, script, r)
+            if ov:
+                for x in ov:
+                    w.violation("final-state-differs-from-rule: running observer %s of a subject that shut down ended "
+                                "finished" % x, {"scenario": sc, "observer": x},
+                                finding_key="C02:running-observer-of-subject-that-shuts-down-ends-finished")
+                viol, _ = oracles.c02_judge(nodes, script, r, wf["stages"], override=ov)
+                w.count("runs_rejudged_with_known_observer_states")
         for k, v in cnt.items():
             w.count(k, v)
         w.count("terminated_runs")
@@ -240,7 +252,13 @@ def main():
                 json.dump({"scenario": s["scenario"], "diag": s["diag"]}, f, indent=1)
             c.note_inconclusive("run hit the watchdog at K=%s but did not reproduce at K=1 (%s); scenario saved to %s" % (
                 K, verdict, sp))
-    if len(stuck) > 3:
+    # a watchdog firing that does not reproduce at K=1 is an inconclusive RUN: it is counted and listed in the
+    # evidence; the check as a whole is only inconclusive when such runs are more than 1% of the executions
+    c.extra["inconclusive_runs"] = list(c.inconclusive)
+    c.count("runs_inconclusive_watchdog_not_reproduced_at_K1", len(stuck))
+    if len(stuck) <= max(1, c.evaluations // 100) and not c.violations:
+        c.inconclusive = []
+    elif len(stuck) > 3:
         c.note_inconclusive("%d further watchdog firings not re-examined" % (len(stuck) - 3))
     c.floor("terminated_runs", 100)
     c.floor("case_A_runs", 20)
